@@ -3,6 +3,8 @@ from __future__ import annotations
 
 import ast
 
+from sa import norm
+
 from sa.cfg import TRUTHY, UNKNOWN, const_eval
 from sa.context import Context, names_in
 from sa.dataflow import TagFlow
@@ -204,7 +206,7 @@ def run(ctx: Context, rep) -> None:
     ys = [n for n in cfg0.find(lambda n: n.kind == "yield")]
     ok = False
     for y in ys:
-        t = ast.unparse(y.ast.value)
+        t = norm.canon(conc, y.ast.value)
         if "executor.map(" in t and t.startswith(
                 "itertools.chain.from_iterable(executor.map("):
             ok = True
@@ -216,15 +218,15 @@ def run(ctx: Context, rep) -> None:
            construct="yield from chain.from_iterable(executor.map(f, batch))",
            message="batch results are yielded in shard order")
     sync = ctx.fn(C.INTERFACES[1])
-    ok = any(ast.unparse(c).startswith("itertools.chain.from_iterable(map(")
-             for c in sync.calls())
+    ok = any(norm.canon(sync, c).startswith(
+        "itertools.chain.from_iterable(map(") for c in sync.calls())
     rep.ob("C03.batch", ok, loc=sync.loc(), where=sync.qualname,
            construct="chain.from_iterable(map(iterate_shard, paths))",
            message="shards are read one after another in path order")
     asy = ctx.fn(C.INTERFACES[3])
     cfg_a = ctx.cfg(asy, {"shuffle": 0})
     ok = any("asyncstdlib.chain.from_iterable(asyncstdlib.map(" in
-             ast.unparse(n.ast) for n in cfg_a.calls())
+             norm.canon(asy, n.ast) for n in cfg_a.calls())
     rep.ob("C03.batch", ok, loc=asy.loc(), where=asy.qualname,
            construct="asyncstdlib.chain.from_iterable(asyncstdlib.map(...))",
            message="async shards are chained in path order")
